@@ -52,7 +52,10 @@ def single_model(code, seed=0):
 
 
 def lattice(Q):
-  acts = [None] + [Q.TensorQuantizationConfig(b, s) for b in (8, 16) for s in (True, False)]
+  # activation configs: none, 8/16 bit x symmetric/asymmetric (per tensor), and the same with CHANNELWISE granularity (a further
+  # axis of TensorQuantizationConfig: no kernel has per-channel activations, every such config must be refused)
+  acts = [None] + [Q.TensorQuantizationConfig(b, s) for b in (8, 16) for s in (True, False)] + \
+         [Q.TensorQuantizationConfig(b, s, Q.QuantGranularity.CHANNELWISE) for b in (8, 16) for s in (True, False)]
   for a, wb, ws, wg, wd, cp, ed in itertools.product(acts, (4, 8, 16), (True, False), (Q.QuantGranularity.TENSORWISE, Q.QuantGranularity.CHANNELWISE),
                                                      (Q.TensorDataType.INT, Q.TensorDataType.FLOAT), (Q.ComputePrecision.INTEGER, Q.ComputePrecision.FLOAT), (True, False)):
     yield dict(a=a, wb=wb, ws=ws, wg=wg, wd=wd, cp=cp, ed=ed)
@@ -60,7 +63,7 @@ def lattice(Q):
 
 def pkey(p):
   a = p["a"]
-  return "a=%s w%d%s%s%s %s ed=%d" % ("none" if a is None else "%d%s" % (a.num_bits, "s" if a.symmetric else "a"), p["wb"], "s" if p["ws"] else "a",
+  return "a=%s w%d%s%s%s %s ed=%d" % ("none" if a is None else "%d%s%s" % (a.num_bits, "s" if a.symmetric else "a", "C" if a.granularity.value == "CHANNELWISE" else ""), p["wb"], "s" if p["ws"] else "a",
                                        "C" if p["wg"].value == "CHANNELWISE" else "T", "i" if p["wd"].value == "INT" else "f", p["cp"].value[:3], p["ed"])
 
 
